@@ -262,8 +262,18 @@ class C38(Prop):
     design_ref = 'DESIGN.md §4 C38'
     technique = ('Lean 4 theorems about executable models of calc_parts and of the combiner plan (step/save/load) + differential '
                  'correspondence with the real functions, engine I/O replaced by a recorder')
-    level_text = ''
-    level_note = ''
+    level_text = ('Proved: (A) for every contig length L >= 1 and size >= 1 the intervals of calc_parts start at 1, are consecutive without gap or '
+                  'overlap, end at L, cover every base exactly once and none is longer than size; refusal iff size = 0 or L = 0. (B) for every '
+                  'floor-log function, input list, branch factor >= 2, batch size >= 1 and every stop/resume schedule: each step preserves the '
+                  'multiset of inputs reachable from the plan and the sample total, strictly decreases 2*#gvcfs + #datasets, and after that many '
+                  'steps the plan is finished with exactly one dataset written, built from exactly the given inputs (none written when there are '
+                  'none); load(save(s)) keeps gvcfs/names/branch factor/batch size and the datasets as a multiset, and is the identity on the bin '
+                  'structure when every dataset is in its natural bin.')
+    level_note = ('save_load_id holds only as save_load_id_partial: _step_vdses bumps new_bin to original_bin+1 and the bump is not saved, so a '
+                  'resumed run may group later merges differently (witness in Props/C38.lean); the exactly-once property is proved for every resume '
+                  'schedule regardless. Partial: datasets are abstracted to the inputs they are built from (the engine merge is assumed to contain '
+                  'exactly what it is given); temp-path uniqueness (uuid, job id) is checked by the recorder, not modelled; models are tied to the '
+                  'code by the correspondence cases only.')
     budget = {'quick': 700, 'thorough': 12000}
     search_budget = {'quick': 2500, 'thorough': 25000}
     rule = ('two case kinds. part: (reference name, 25 contig lengths, interval size) through the real calculate_even_genome_partitioning; '
@@ -316,10 +326,10 @@ class C38(Prop):
         if rng.random() < 0.02:
             size = 0
         lens = []
+        s = max(size, 1)
         for _ in range(25):
             r = rng.random()
             m = rng.randint(1, 12)
-            s = max(size, 1)
             if r < 0.2:
                 v = m * s
             elif r < 0.35:
@@ -328,10 +338,10 @@ class C38(Prop):
                 v = max(1, m * s - 1)
             elif r < 0.6:
                 v = rng.choice([1, 2, s, s + 1, max(1, s - 1)])
-            elif r < 0.7 and size >= 1000:
-                v = rng.choice([248956422, 242193529, 57227415, 16569, 156040895])
+            elif r < 0.7 and size >= 1_200_000:
+                v = rng.choice([248956422, 242193529, 57227415, 16569, 156040895])   # GRCh38 chr1, chr2, chrY, chrM, chrX
             else:
-                v = rng.randint(1, 40 * s if s < 1000 else 3 * s)
+                v = rng.randint(1, 30 * s)     # at most ~30 intervals per contig: each real Interval costs ~0.2 ms
             lens.append(v)
         return {'kind': 'part', 'name': rng.choice(['GRCh38', 'GRCh37']), 'lengths': lens, 'size': size}
 
